@@ -7,3 +7,4 @@ import Proofs.C20
 #print axioms PV.Proofs.C20.converged_needs_six
 #print axioms PV.Proofs.C20.no_panic
 #print axioms PV.Proofs.C20.panic_sites
+#print axioms PV.Proofs.C20.declared_panic_sites
